@@ -269,6 +269,30 @@ def run_impl(case):
                 fails.append(("C01", f"writing {i.path}: a read strobe was seen", i.start))
             if mem_snapshot() != before:
                 fails.append(("C01", f"writing {i.path} changed SRAM contents", i.start))
+        # ---- back-to-back: an access to an unassigned address presented in the very cycle after the
+        # acknowledge of a CSR or SRAM access (strobe held through the acknowledge, no idle cycle)
+        free = [a for a in range(naddr) if owner[a] is None and not any(s_ <= a < e_ for s_, e_ in bridge_windows)]
+        assigned = [a for a in range(naddr) if owner[a] is not None]
+        for _ in range(min(6, len(free), len(assigned))):
+            a1, a2 = rnd.choice(assigned), rnd.choice(free)
+            ctx.set(bus.adr, a1 >> gb); ctx.set(bus.sel, 1 << (a1 & ((1 << gb) - 1))); ctx.set(bus.we, 0)
+            ctx.set(bus.cyc, 1); ctx.set(bus.stb, 1)
+            acked = False
+            for _k in range(ratio + 4):
+                if ctx.get(bus.ack):
+                    acked = True
+                    await ctx.tick()
+                    break
+                await ctx.tick()
+            ctx.set(bus.adr, a2 >> gb); ctx.set(bus.sel, 1 << (a2 & ((1 << gb) - 1)))
+            stats["back_to_back_probes"] = stats.get("back_to_back_probes", 0) + 1
+            for _k in range(ratio + 4):
+                if ctx.get(bus.ack):
+                    fails.append(("C01", f"unassigned root address {a2}, accessed back-to-back after address {a1}, was acknowledged", a2))
+                    break
+                await ctx.tick()
+            ctx.set(bus.cyc, 0); ctx.set(bus.stb, 0)
+            await ctx.tick(); await ctx.tick()
         # ---- every other address: SRAM granules and unassigned addresses
         for a in range(naddr):
             o = owner[a]
